@@ -270,6 +270,42 @@ def real_binary_signal(scratch):
     return ok, {"cases": out}
 
 
+def real_binary_timeout(scratch):
+    """C13 at the seam the simulator stubs (mvdan/sh's DefaultExecHandler: interrupt, then kill after a
+    grace period): the real binary runs an external command that ignores the interrupt under a 300 ms
+    task timeout; 'terminated shortly afterwards' = the run is over within the 2 s grace + margin, it
+    fails, and the next command never starts. (One process, no children of its own: a grandchild that
+    survives and keeps the output pipe open delays the return of the run - os/exec waits for the pipe -
+    which the statement does not speak about.) Returns (ok, details)."""
+    repo = os.environ.get("VERIF_REPO", "/repo")
+    binp = os.path.join(BUILD, "taskctl-real")
+    env = dict(os.environ, GOFLAGS="-mod=mod", GOPROXY="off", GOSUMDB="off")
+    p = subprocess.run(["go", "build", "-o", binp, "./cmd/taskctl"], cwd=repo, env=env, stdout=subprocess.PIPE, stderr=subprocess.STDOUT, text=True)
+    if p.returncode != 0:
+        return None, {"error": "build of the real binary failed", "output": p.stdout[-800:]}
+    d = os.path.join(scratch, "timeout")
+    os.makedirs(d, exist_ok=True)
+    cfg = os.path.join(d, "tasks.yaml")
+    open(cfg, "w").write("tasks:\n  stubborn:\n    timeout: 300ms\n    command:\n      - sh -c 'trap \"\" INT; exec sleep 17.3'\n      - echo ran-second-command\n")
+    t0 = time.time()
+    try:
+        q = subprocess.run([binp, "-c", cfg, "--output", "raw", "stubborn"], cwd=d, stdout=subprocess.PIPE, stderr=subprocess.PIPE, text=True, timeout=40, stdin=subprocess.DEVNULL)
+        rc, so = q.returncode, q.stdout
+    except subprocess.TimeoutExpired:
+        rc, so = None, ""
+    took = time.time() - t0
+    ps = subprocess.run(["ps", "-eo", "pid,args"], stdout=subprocess.PIPE, text=True).stdout
+    for l in ps.splitlines():
+        if l.strip().endswith("sleep 17.3"):
+            try:
+                os.kill(int(l.split()[0]), 9)
+            except OSError:
+                pass
+    case = {"timeout_ms": 300, "kill_grace_expected_s": 2, "run_took_s": round(took, 2), "exit": rc, "second_command_ran": "ran-second-command" in so}
+    ok = rc not in (0, None) and took <= 6.0 and not case["second_command_ran"]
+    return ok, {"cases": [case]}
+
+
 def load_known():
     p = os.path.join(VERIF, "known_findings.json")
     if not os.path.exists(p):
@@ -662,6 +698,25 @@ def main():
                     reported.append({"rule": v["rule"], "replay": path, "msg": v["msg"], "count": 1})
                     exit_code = 1
 
+        timeout_probe = None
+        if spec.get("real_binary_timeout"):
+            tok, timeout_probe = real_binary_timeout(scratch)
+            if tok is None:
+                harness_errors.append({"type": "timeout-probe-trouble", "detail": timeout_probe})
+            elif not tok:
+                v = {"prop": prop, "rule": "real-binary-timeout", "msg": "real binary: a command that ignores the interrupt, under a 300 ms task timeout: %s (want: the run fails, is over within the 2 s kill grace plus margin (<= 6 s), and the next command does not start)" % json.dumps(timeout_probe["cases"]), "seq": 0}
+                k = known_match(prop, v, known)
+                if k:
+                    known_hits[k["id"]] = (k, known_hits.get(k["id"], (k, 0))[1] + 1)
+                else:
+                    path = os.path.join(OUT, "replays", prop, "real-binary-timeout.json")
+                    write_replay(path, {"property": prop, "engine": "real-binary", "violation": v, "cases": timeout_probe["cases"],
+                                        "how": "build ./cmd/taskctl; task with `timeout: 300ms` and commands [sh -c 'trap \"\" INT; exec sleep 17.3', echo ran-second-command]; run it, measure"})
+                    print("violation: rule=%s %s" % (v["rule"], v["msg"][:600]), flush=True)
+                    print("VIOLATION property=%s replay=%s" % (prop, path), flush=True)
+                    reported.append({"rule": v["rule"], "replay": path, "msg": v["msg"], "count": 1})
+                    exit_code = 1
+
         for kid, (k, n) in sorted(known_hits.items()):
             print("KNOWN-FINDING: property=%s %s (%d runs)" % (prop, k["text"], n), flush=True)
 
@@ -715,6 +770,7 @@ def main():
                 "real_vs_stub": REAL_VS_STUB,
                 "real_binary_smoke": smoke,
                 "real_binary_signal_probe": signal_probe,
+                "real_binary_timeout_probe": timeout_probe,
                 "workers": NWORKERS,
                 "harness_errors": len(harness_errors),
                 "worker_crashes": len(all_crashes),
